@@ -5,7 +5,6 @@ import (
 	"fmt"
 	"io"
 	"log"
-	"mime"
 	"sort"
 	"strings"
 	"sync"
@@ -26,7 +25,7 @@ type outMsg struct {
 func newOutMsg(m *fbb.Message) *outMsg {
 	data, err := m.Bytes()
 	title := m.Subject()
-	return &outMsg{msg: m, mid: m.MID(), title: title, qtitle: mime.QEncoding.Encode("utf-8", title), data: data, valid: err == nil && m.Validate() == nil}
+	return &outMsg{msg: m, mid: m.MID(), title: title, qtitle: fbb.VerifHeaderTitle(title), data: data, valid: err == nil && m.Validate() == nil}
 }
 
 type sessSpec struct {
